@@ -39,6 +39,14 @@ from gevent import socket
 __all__ = ['HTTPConnection', 'HTTPSConnection', 'get_connection']
 
 
+def _finish_response(response):
+    # The callers in this library only look at the status and the headers.
+    # Until the body of a response has been read to its end, http.client
+    # refuses to read the next response on the same (kept-alive) connection.
+    response.data = response.read()
+    return response
+
+
 class HTTPConnection(httplib.HTTPConnection):
     """Modified version of the :py:class:`httplib.HTTPConnection` class that
     uses gevent sockets. This attempts to avoid the complete re-implementation
@@ -50,6 +58,9 @@ class HTTPConnection(httplib.HTTPConnection):
         httplib.HTTPConnection.__init__(self, host, port, *args, **kwargs)
         self._create_connection = socket.create_connection
 
+    def getresponse(self):
+        return _finish_response(httplib.HTTPConnection.getresponse(self))
+
 
 class HTTPSConnection(httplib.HTTPSConnection):
     """Modified version of the :py:class:`httplib.HTTPSConnection` class that
@@ -60,6 +71,9 @@ class HTTPSConnection(httplib.HTTPSConnection):
     def __init__(self, host, port=None, *args, **kwargs):
         httplib.HTTPSConnection.__init__(self, host, port, *args, **kwargs)
         self._create_connection = socket.create_connection
+
+    def getresponse(self):
+        return _finish_response(httplib.HTTPSConnection.getresponse(self))
 
     def close(self):
         if self.sock:
